@@ -40,10 +40,15 @@ type RCase struct {
 	Sess       []int  `json:"sess"`     // which of the 3 prefix sessions gets a report (one outstanding request each)
 	Answer     []bool `json:"answer"`   // answered while the loop is parked
 	BusyPct    int    `json:"busy_pct"` // how long the loop stays parked, in % of the timeout
+	// FailPct > 0: once the requests are out, the socket refuses writes for FailPct % of the timeout (a full device queue, a
+	// route flap): retransmissions attempted meanwhile fail; the timer goes on all the same, later copies go out, and after
+	// the last expiry the request is abandoned
+	FailPct int `json:"fail_pct,omitempty"`
 }
 
 type rstats struct {
 	answeredAfterFired int
+	failed             bool
 }
 
 func runReal(c RCase) (v *vcore.Violation, stt rstats) {
@@ -180,6 +185,12 @@ func runReal(c RCase) (v *vcore.Violation, stt rstats) {
 		}
 	}
 	first := append([]*req(nil), reqs...)
+	if c.FailPct > 0 {
+		st.Srv.VerifFailSends(true)
+		time.Sleep(retrans * time.Duration(c.FailPct) / 100)
+		st.Srv.VerifFailSends(false)
+		stt.failed = true
+	}
 	// park the loop inside the data plane
 	armed.Store(true)
 	b, err := r.Build(stack.Op{Kind: "est", Peer: 0, Node: 0, Sess: -1, CP: 0x99, Rules: []stack.RuleOp{{Verb: "create", Kind: "FAR", ID: 77, Action: 2, HasAction: true}}}, 0x7777)
@@ -254,6 +265,9 @@ func runReal(c RCase) (v *vcore.Violation, stt rstats) {
 			retrans, c.MaxRetrans, len(left), int(c.MaxRetrans)+2+40, ids), stt
 	}
 	for _, q := range reqs {
+		if c.FailPct > 0 {
+			continue // copies that could not be sent are not seen here; the bound above and the release below still hold
+		}
 		if !q.answered && q.copies != int(c.MaxRetrans)+1 {
 			return vcore.Violatef("retrans-count", "real timers (timeout %v, max %d): request seq %d to sock %d was never answered and was transmitted %d time(s), want %d", retrans, c.MaxRetrans, q.seq, q.sock, q.copies, int(c.MaxRetrans)+1), stt
 		}
@@ -273,6 +287,9 @@ func genReal(t *rapid.T) RCase {
 		MaxRetrans: uint8(rapid.IntRange(0, 3).Draw(t, "max_retrans")),
 		BusyPct:    rapid.SampledFrom([]int{20, 150, 150, 250}).Draw(t, "busy_pct"),
 	}
+	if rapid.IntRange(0, 2).Draw(t, "fail") == 0 {
+		c.FailPct = rapid.SampledFrom([]int{60, 130, 250}).Draw(t, "fail_pct")
+	}
 	k := rapid.IntRange(1, 5).Draw(t, "k")
 	for i := 0; i < k; i++ {
 		c.Sess = append(c.Sess, rapid.IntRange(0, 2).Draw(t, "sess"))
@@ -284,6 +301,10 @@ func genReal(t *rapid.T) RCase {
 func accountReal(c RCase, s rstats) {
 	vcore.E.Eval()
 	vcore.E.Class("real_timers")
+	if s.failed && c.MaxRetrans > 0 {
+		vcore.E.Class("real_timers:retransmissions_attempted_while_the_socket_refused_writes")
+		vcore.E.NonTrivial(vcore.JSON(c))
+	}
 	if s.answeredAfterFired > 0 && c.MaxRetrans > 0 {
 		vcore.E.Class("real_timers:response_served_after_timer_fired")
 		vcore.E.NonTrivial(vcore.JSON(c))
